@@ -52,6 +52,9 @@ def label_ok(w: str, extra_models=()) -> bool:
     return True
 
 
+SPECIAL_WORDS = ["inf", "nan", "Infinity", "NaN", "INF", "infinity", "yes", "no", "on", "off", "True", "False", "None", "e", "E"]
+
+
 def word_ok(w: str) -> bool:
     """usable as a free parameter word: a label that float() would not read and
     that does not start with '-' (that spelling means negation of a Define'd name)"""
@@ -177,8 +180,10 @@ class Concretiser:
         if a not in self.words:
             r = self._r("word", a)
             for _ in range(1000):
-                w = r.choice(label_pool())
-                if word_ok(w) and w not in self.used:
+                # now and then a word that Python would read as a number or a truth value but the grammar reads as a word
+                special = SPECIAL_WORDS if not getattr(self, "no_floatlike_words", False) else SPECIAL_WORDS[6:]
+                w = r.choice(special) if r.random() < 0.07 else r.choice(label_pool())
+                if (word_ok(w) or w in special) and w not in self.used:
                     break
             self.words[a] = w
             self.used.add(w)
